@@ -816,7 +816,7 @@ class Interp:
             sautil.remove_db(self.engine)
 
     def viol(self, sig, msg, observed=None, expected=None):
-        if self.triggers and (sig.startswith("rows/") or sig.startswith("memory/") or sig.startswith("state/") or sig.startswith("reload/")):
+        if self.triggers and sig.split("/")[0] in ("rows", "memory", "state", "reload", "order"):
             sig = self.triggers[0]
         raise Violation(f"{self.prop}/{sig}", msg + f"  [cfg={canon(self.U.cfg)} trace={self.trace[-12:]}]", observed=observed, expected=expected)
 
@@ -1399,8 +1399,13 @@ class Interp:
             for key, row in m.rows.items():
                 if key[0] == "Parent" and row.get("fav") == o.uid:
                     holder = m.by_uid("Parent", key[1])
-                    if holder is None or holder.idx not in seen:
+                    if holder is None:
                         return False
+                    if holder.idx in seen:
+                        continue  # deleted together with its holder
+                    if holder.state == "S" and not holder.dead and holder.fav is not o:
+                        continue  # re-pointed / cleared in memory: the same flush updates the holder row first (post_update)
+                    return False
         if o.kind == "Tag":
             refs = [ch for ch in m.objs if o in ch.tags and not ch.dead]
             if not U.has_items and (refs or any(p[1] == o.uid for p in m.pairs)):
@@ -1437,10 +1442,27 @@ class Interp:
                     self.ctx.exclude("delete cascade over a loaded collection that still holds an object deleted earlier in the transaction (known finding: it is revived by a savepoint rollback)")
                     return False
                 self.triggers.append("state/deleted-before-savepoint-revived-by-savepoint-rollback")
+        if self.U.fam == "pct" and self.U.cfg["fav"]:
+            clos = [o] + (self.model.descendants(o) if self.U.casc_delete else [])
+            for h in clos:
+                row = self.model.rows.get(("Parent", h.uid)) if h.kind == "Parent" else None
+                if row is not None and row.get("fav") is not None and h.fav is None and any(
+                        x.uid == row["fav"] and self.U.childish(x.kind) and (x in clos or x.state == "D") for x in self.model.objs):
+                    if not self.pinned:
+                        self.ctx.exclude("post_update reference cleared in memory, then holder and old target deleted in one flush (known finding: no NULL-out before the DELETE)")
+                        return False
+                    self.triggers.append("post_update/cleared-reference-then-delete-holder-and-target-skips-null-out")
         self.do(lambda: self.session.delete(o.real))
         mappers = [o] + (self.model.descendants(o) if self.U.casc_delete else [])
         if any(q.fav is not None and q.fav in mappers for q in mappers):
             self.classes.add("delete-favourite-with-its-holder")
+        if self.U.fam == "pct" and self.U.cfg["fav"]:
+            for x in mappers:
+                for key, row in self.model.rows.items():
+                    if key[0] == "Parent" and row.get("fav") == x.uid:
+                        h = self.model.by_uid("Parent", key[1])
+                        if h is not None and h not in mappers and h.fav is not x:
+                            self.classes.add("repoint-favourite-and-delete-old-target" if h.fav is not None else "null-favourite-and-delete-old-target")
         self.model.m_delete(o)
         self.touch("delete", *mappers)
 
